@@ -302,3 +302,42 @@ def make_reserved_key(seed: int):
     r = random.Random(seed ^ 0xF12)
     kw['cache_vals'] = {**kw['cache_vals'], 'returned': r.choice([b'e', True, 1, 'x'])}
     return kw
+
+
+# ----------------------------------------------------------------------------- C20
+def make_forked(seed: int):
+    """Programs that use unassigned opcodes, run with a soft-fork op installed at some of them."""
+    from .progs import push, op, block, b1, u16, OP
+    from ..softfork import KINDS
+    r = random.Random(seed ^ 0xC20)
+    kw = make_run(seed ^ 0x20C20, max_depth=3, n_hi=5)
+    codes = r.sample(range(92, 256), r.choice([1, 1, 2, 3]))
+    forks = {c: r.choice(KINDS) for c in codes}
+    g = Gen(r, {'timestamp': NOW}, [b'\x01' * 32], max_depth=3, illtyped=0.02)
+
+    def fk():
+        c = r.choice(codes + [r.randrange(92, 256)])
+        n = r.choice([0, 1, 1, 2, 3])
+        cnt = n if r.random() < 0.85 else r.choice([127, 128, 255])
+        items = b''.join(push(r.choice([b'\xff', b'\x00', b'', b'\x01\x02', b'\x00\x00'])) for _ in range(n))
+        return items + b1(c) + b1(cnt)
+
+    def wrap(b):
+        c = r.randrange(7)
+        if c == 0:
+            return op('TRUE') + block('IF', b)
+        if c == 1:
+            return block('TRY_EXCEPT', b, r.choice([b'', fk()]))
+        if c == 2:
+            return op('DEF', b'\x00', u16(len(b)), b) + op('CALL', b'\x00')
+        if c == 3:
+            return push(b) + op('EVAL')
+        if c == 4:
+            return op('TRUE') + block('LOOP', b + op('FALSE')) + op('POP0')
+        return b
+
+    extra = b''.join(wrap(fk()) if r.random() < 0.6 else g.snippet(1) for _ in range(r.randrange(1, 5)))
+    kw['scripts'] = [s + extra for s in kw['scripts'][:-1]] + [extra + kw['scripts'][-1]] if r.random() < 0.5 \
+        else kw['scripts'][:-1] + [kw['scripts'][-1] + extra]
+    kw['forks'] = forks
+    return kw
